@@ -6,11 +6,13 @@ import (
 	"fmt"
 	"math/rand"
 	"net"
+	"net/http"
 	"net/http/httptest"
 	"runtime"
 	"strings"
 	"sync"
 	"sync/atomic"
+	"syscall"
 	"testing"
 	"time"
 
@@ -39,7 +41,49 @@ type wcfg struct {
 	Seed     int64  `json:"script_seed"`
 }
 
-var opKinds = []string{"req-good", "req-5xx", "req-abort", "req-hash-client", "add", "remove", "strategy", "list", "metrics", "health", "eject", "is-healthy", "pool", "stop"}
+var opKinds = []string{"req-good", "req-5xx", "req-abort", "req-hash-client", "add", "remove", "strategy", "list", "metrics", "health", "eject", "is-healthy", "pool", "stop",
+	// reads whose client is gone: the ResponseWriter's Write fails after 0..n bytes (WriteHeader works), as
+	// http.Server's writer does once the scraper has disconnected or its write deadline has passed
+	"metrics-client-gone", "health-client-gone", "admin-metrics", "admin-metrics-client-gone", "list-client-gone"}
+
+// goneWriter is an http.ResponseWriter whose connection breaks after `left` more body bytes: Write
+// passes on what still fits and returns the error net/http reports for a vanished peer.
+type goneWriter struct {
+	hdr    http.Header
+	code   int
+	left   int
+	wrote  int
+	failed int
+}
+
+var errGone = &net.OpError{Op: "write", Net: "tcp", Err: syscall.EPIPE}
+
+func newGoneWriter(left int) *goneWriter { return &goneWriter{hdr: http.Header{}, left: left} }
+
+func (w *goneWriter) Header() http.Header { return w.hdr }
+func (w *goneWriter) WriteHeader(code int) {
+	if w.code == 0 {
+		w.code = code
+	}
+}
+func (w *goneWriter) Write(b []byte) (int, error) {
+	if w.code == 0 {
+		w.code = http.StatusOK
+	}
+	if len(b) <= w.left {
+		w.left -= len(b)
+		w.wrote += len(b)
+		return len(b), nil
+	}
+	n := w.left
+	w.left = 0
+	w.wrote += n
+	w.failed++
+	return n, errGone
+}
+
+// goneAfter: how many body bytes still reach the client that disconnects (0 = none, up to about a full snapshot).
+var goneAfter = []int{0, 0, 1, 16, 200, 1500}
 
 type fakeConn struct {
 	net.Conn
@@ -60,7 +104,7 @@ func script(kind string) *lab.RespScript {
 	return s
 }
 
-func runWorkload(t *testing.T, c wcfg, overlap *[len14]int64) string {
+func runWorkload(t *testing.T, c wcfg, overlap *[lenKinds]int64) string {
 	l, err := lab.NewSocketLab(c.Strategy, lab.SocketOpts{Backends: 3, Mutate: func(cfg *config.Config) {
 		if c.Breaker {
 			cfg.CircuitBreaker = config.CircuitBreakerConfig{Enabled: true, FailureThreshold: 3, SuccessThreshold: 1, MaxRequests: 2, IntervalSeconds: 60, TimeoutSeconds: 1}
@@ -120,7 +164,7 @@ func runWorkload(t *testing.T, c wcfg, overlap *[len14]int64) string {
 	}
 	wd := lab.StartWatchdog(t.Name(), "concurrent-workloads", lab.NoProgress, func() any { return c })
 	defer wd.Stop()
-	var inflight [len14]int32
+	var inflight [lenKinds]int32
 	var ready, goFlag int32
 	var wg sync.WaitGroup
 	var extraSeq int32
@@ -170,6 +214,20 @@ func runWorkload(t *testing.T, c wcfg, overlap *[len14]int64) string {
 				case "health":
 					rec := httptest.NewRecorder()
 					l.LB.GetMetricsCollector().HealthHandler()(rec, httptest.NewRequest("GET", "/health", nil))
+				case "metrics-client-gone":
+					l.LB.GetMetricsCollector().MetricsHandler()(newGoneWriter(goneAfter[rng.Intn(len(goneAfter))]), httptest.NewRequest("GET", "/metrics", nil))
+				case "health-client-gone":
+					l.LB.GetMetricsCollector().HealthHandler()(newGoneWriter(goneAfter[rng.Intn(len(goneAfter))]), httptest.NewRequest("GET", "/health", nil))
+				case "admin-metrics":
+					adminCall("GET", "/v1/metrics", nil)
+				case "admin-metrics-client-gone", "list-client-gone":
+					path := "/v1/metrics"
+					if kind == "list-client-gone" {
+						path = "/v1/backends"
+					}
+					req := httptest.NewRequest("GET", path, nil)
+					req.RemoteAddr = "127.0.0.1:999"
+					admin.ServeHTTP(newGoneWriter(goneAfter[rng.Intn(len(goneAfter))]), req)
 				case "eject":
 					bs := l.LB.VerifBackends()
 					if len(bs) > 0 {
@@ -226,6 +284,10 @@ func runWorkload(t *testing.T, c wcfg, overlap *[len14]int64) string {
 						rec := httptest.NewRecorder()
 						l.LB.GetMetricsCollector().MetricsHandler()(rec, httptest.NewRequest("GET", "/metrics", nil))
 						adminCall("GET", "/v1/backends", nil)
+					case g == 6:
+						l.LB.GetMetricsCollector().MetricsHandler()(newGoneWriter(goneAfter[(g+i)%len(goneAfter)]), httptest.NewRequest("GET", "/metrics", nil))
+						rec := httptest.NewRecorder()
+						l.LB.GetMetricsCollector().HealthHandler()(rec, httptest.NewRequest("GET", "/health", nil))
 					default:
 						id := l.NextCase()
 						for _, b := range l.Backends {
@@ -253,17 +315,17 @@ func runWorkload(t *testing.T, c wcfg, overlap *[len14]int64) string {
 	return ""
 }
 
-const len14 = 14
+const lenKinds = 19 // len(opKinds)
 
 func TestC12ConcurrentWorkloads(t *testing.T) {
 	sub := lab.Sub("concurrent-workloads", "all 5 strategies x 2^6 on/off combinations of breaker, limiter, passive checks, active checks, websocket pool, plugin chain (logging, request-id, size_limit, gzip, headers + request/trace IDs) are cycled (320 configurations); for each a workload of 8-64 goroutines x 6-20 operations over "+
-		"{request to good/5xx/aborting/unreachable backend over real sockets, admin add/remove/set_strategy/list, /metrics, /health, MarkBackendUnhealthy, IsBackendHealthy, pool put/get/close/stats, Stop} with scripts derived from VERIF_SEED; one configuration in eight (with breaker, passive checks or limiter on; breaker interval 1 s there) continues after a quiet period of 1.15 s - longer than every configured interval - with a second wave of requests, metrics reads and listings; "+
+		"{request to good/5xx/aborting/unreachable backend over real sockets, admin add/remove/set_strategy/list, /metrics, /health and admin /v1/metrics reads through a recorder, the same reads (/metrics, /health, /v1/metrics, /v1/backends) by a client that is gone - the ResponseWriter's Write fails with EPIPE after 0/1/16/200/1500 body bytes -, MarkBackendUnhealthy, IsBackendHealthy, pool put/get/close/stats, Stop} with scripts derived from VERIF_SEED; one configuration in eight (with breaker, passive checks or limiter on; breaker interval 1 s there) continues after a quiet period of 1.15 s - longer than every configured interval - with a second wave of requests, metrics reads and listings; "+
 		"binary built with -race; oracle: no race report with any frame, no handler panic, no fatal error, every workload returns (20 s no-progress watchdog); every workload is non-trivial (>=3 operation kinds incl. mutating ones); distinct = distinct (configuration, goroutines, ops, seed)")
 	lab.Assume("the race detector decides only the interleavings that were executed (their happens-before class); L2 handler composition replicates cmd/helios/server.go")
 	if lab.Replaying() {
 		t.Skip()
 	}
-	var overlap [len14]int64
+	var overlap [lenKinds]int64
 	var firstViol string
 	var firstCase wcfg
 	perConfig := lab.Scale(1, 12)
